@@ -133,6 +133,14 @@ theorem mapCells_nrows (g : Val α → Val α) (t : Table α) : (t.mapCells g).n
   unfold Table.mapCells Table.nrows
   cases t.cols <;> simp
 
+/-! ### sqlite rows -/
+
+theorem filterMap_some_eq_map {β γ : Type} (f : β → γ) (l : List β) :
+    l.filterMap (fun x => some (f x)) = l.map f := by
+  induction l with
+  | nil => rfl
+  | cons a t ih => simp [ih]
+
 /-! ### string widths -/
 
 theorem foldl_max_ge_init (col : List (Val α)) (m : Nat) :
